@@ -1,5 +1,14 @@
 // special thanks to james7132
 
+/// Upper bound for the run-length-expanded size of one input payload: what a full window of
+/// pending inputs (`PENDING_OUTPUT_SIZE` + 1 = 129 entries) of the largest encodable size
+/// (`u16::MAX` bytes plus the 2-byte length prefix) occupies. Larger payloads are rejected
+/// before anything is allocated for them.
+const MAX_DECODED_LEN: usize = 129 * (u16::MAX as usize + 2);
+/// Upper bound for the number of inputs in one payload (a sender never has more than
+/// `PENDING_OUTPUT_SIZE` + 1 pending; this leaves ample slack).
+const MAX_DECODED_INPUTS: usize = 1024;
+
 pub(crate) fn encode<'a>(
     reference: &[u8],
     pending_input: impl Iterator<Item = &'a Vec<u8>>,
@@ -35,11 +44,58 @@ pub(crate) fn decode(
     reference: &[u8],
     data: &[u8],
 ) -> Result<Vec<Vec<u8>>, Box<dyn std::error::Error + Send + Sync>> {
+    // `bitfield_rle::decode` trusts its input: it indexes past the end of truncated data,
+    // overflows on over-long varints and allocates whatever length the data claims.
+    // Reject such data before handing it over.
+    validate_rle(data)?;
+
     // decode the RLE encoding first
     let buf = bitfield_rle::decode(data)?;
 
     // decode the delta-encoding
     delta_decode(reference, &buf)
+}
+
+/// Walks the run-length tokens of `data` without decoding them and checks that every varint is
+/// complete and at most 9 bytes long (so it fits a `u64` without overflow), that every literal
+/// token lies inside `data`, and that the expanded size does not exceed `MAX_DECODED_LEN`.
+fn validate_rle(data: &[u8]) -> Result<(), Box<dyn std::error::Error + Send + Sync>> {
+    let mut offset = 0;
+    let mut total: u64 = 0;
+
+    while offset < data.len() {
+        let mut next: u64 = 0;
+        let mut shift = 0;
+        loop {
+            if shift >= 63 {
+                return Err("run-length varint too long".into());
+            }
+            let Some(&byte) = data.get(offset) else {
+                return Err("truncated run-length varint".into());
+            };
+            offset += 1;
+            next |= u64::from(byte & 127) << shift;
+            shift += 7;
+            if byte & 128 == 0 {
+                break;
+            }
+        }
+
+        let literal = next & 1 == 0;
+        let len = if literal { next >> 1 } else { next >> 2 };
+        total += len;
+        if total > MAX_DECODED_LEN as u64 {
+            return Err("run-length payload expands beyond the maximum size".into());
+        }
+        if literal {
+            if len > (data.len() - offset) as u64 {
+                return Err("truncated run-length literal".into());
+            }
+            offset += len as usize;
+        }
+    }
+
+    Ok(())
 }
 
 fn delta_decode(
@@ -63,6 +119,10 @@ fn delta_decode(
         }
         let encoded = &data[pos..pos + len];
         pos += len;
+
+        if output.len() >= MAX_DECODED_INPUTS {
+            return Err("too many inputs in one payload".into());
+        }
 
         // XOR against the base up to the shorter of the two, append remainder as-is
         let mut decoded = encoded.to_vec();
